@@ -260,6 +260,23 @@ def fromMIToNested {ν α} [DecidableEq ν] (M : MI ν α) (instArg : Option Str
     else if df.map (·.1) ≠ M.names then throw Err.assert
     else pure ⟨df⟩
 
+/-! ### nested frames with a non-default row index
+
+The instance identifiers of a nested frame are its row labels.  `from_nested_to_multi_index` walks
+`X.index.unique()` in row order and reads `X.loc[label]`, so for pairwise distinct labels the result
+is the frame converted by position with label `labels[p]` in place of position `p`.  Every other
+converter ignores the row labels of its input and returns a fresh RangeIndex. -/
+
+def relabelInstances {β : Type} (labels : List Int) (rows : List ((Int × Int) × β)) :
+    List ((Int × Int) × β) :=
+  rows.map (fun r => ((labels.getD r.1.1.toNat r.1.1, r.1.2), r.2))
+
+/-- `from_nested_to_multi_index` on a frame whose row index is `labels` -/
+def fromNestedToMIIx {ν α} (labels : List Int) (N : Nested ν α) (instArg timeArg : Option String) :
+    Except Err (MI ν α) := do
+  let M ← fromNestedToMI N instArg timeArg
+  pure { M with rows := relabelInstances labels M.rows }
+
 /-! ### nested <-> long -/
 
 /-- `df.melt(id_vars=<index levels>, var_name=…)`: the value columns stacked one after the other in
@@ -275,6 +292,14 @@ def melt {κ ν α : Type} (names : List ν) (rows : List (κ × List α)) : Lis
 def fromNestedToLong {ν α} (reserved : ν → Bool) (N : Nested ν α)
     (instArg timeArg dimArg : Option String) : Except Err (Long ν α) := do
   let M ← fromNestedToMI N (some "index") (some "time_index")
+  if M.names.any reserved then throw Err.value
+  let rows := (melt M.names M.rows).map (fun e => (e.1.1.1, e.1.1.2, e.1.2, e.2))
+  pure ⟨instArg.getD "index", timeArg.getD "time_index", dimArg.getD "column", rows⟩
+
+/-- `from_nested_to_long` on a frame whose row index is `labels` -/
+def fromNestedToLongIx {ν α} (reserved : ν → Bool) (labels : List Int) (N : Nested ν α)
+    (instArg timeArg dimArg : Option String) : Except Err (Long ν α) := do
+  let M ← fromNestedToMIIx labels N (some "index") (some "time_index")
   if M.names.any reserved then throw Err.value
   let rows := (melt M.names M.rows).map (fun e => (e.1.1.1, e.1.1.2, e.1.2, e.2))
   pure ⟨instArg.getD "index", timeArg.getD "time_index", dimArg.getD "column", rows⟩
